@@ -16,17 +16,18 @@ cl = os.environ.get("CONFIRM", f"/tmp/confirm{rnd}-{pid}.log")
 confirm = open(cl).read() if os.path.exists(cl) else ""
 open(f"{dst}/confirm.log", "w").write(confirm)
 checks = os.environ.get("CHECKS", prop).split()
-assert subprocess.run("git -C /repo status --porcelain", shell=True, capture_output=True, text=True).stdout.strip() == ""
-subprocess.run(f"git -C /repo apply {dst}/patch.diff", shell=True, check=True)
+REPO = os.environ.get("REPO", "/repo"); CHECK = os.environ.get("CHECK", "/verif/check")  # an isolated copy (tools/mutscan_setup.sh) while /repo is in use
+assert subprocess.run(f"git -C {REPO} status --porcelain", shell=True, capture_output=True, text=True).stdout.strip() == ""
+subprocess.run(f"git -C {REPO} apply {dst}/patch.diff", shell=True, check=True)
 res = {}
 try:
     for c in checks:
-        r = subprocess.run(f"/verif/check {c} quick", shell=True, capture_output=True, text=True)
+        r = subprocess.run(f"{CHECK} {c} quick", shell=True, capture_output=True, text=True)
         lines = [l for l in r.stdout.splitlines() if l.startswith(("minimised", "violation", "VIOLATION"))]
         res[c] = {"exit": r.returncode, "caught": "VIOLATION" in r.stdout, "output": [l[:300] for l in lines[-3:]]}
         print(pid, c, "CAUGHT" if res[c]["caught"] else "missed", (lines[-2][:160] if len(lines) > 1 else ""))
 finally:
-    subprocess.run("git -C /repo checkout -- .", shell=True)
+    subprocess.run(f"git -C {REPO} checkout -- .", shell=True)
 meta = {"property": prop, "breaks": prop, "source": "sub-agent given only the property text and a scratch worktree",
         "needs_to_manifest": needs,
         "confirmed": {"how": "tools/seed_confirm.sh in the agent's scratch worktree: full `cargo test -p chitchat` with the change, demo without the change, demo with the change", "log": "confirm.log"},
